@@ -943,7 +943,9 @@ class Client:
         if self._cookies is None:
             return
 
-        url = urlsplit(get_current_url(environ))
+        # Stored cookies hold the Path and Domain attributes as they were sent, in
+        # URI form, so match them against the URI form of the request URL.
+        url = urlsplit(iri_to_uri(get_current_url(environ)))
         server_name = url.hostname or "localhost"
         value = "; ".join(
             c._to_request_header()
@@ -986,7 +988,7 @@ class Client:
         """
         self._add_cookies_to_wsgi(environ)
         rv = run_wsgi_app(self.application, environ, buffered=buffered)
-        url = urlsplit(get_current_url(environ))
+        url = urlsplit(iri_to_uri(get_current_url(environ)))
         self._update_cookies_from_response(
             url.hostname or "localhost", url.path, rv[2].getlist("Set-Cookie")
         )
